@@ -11,6 +11,11 @@ use std::time::{Duration, Instant};
 pub struct Step<S> {
     /// Successor state; `None` for probe actions that are judged but not expanded.
     pub next: Option<S>,
+    /// Identify the successor STRICTLY: an existing state only counts as the same if the fine
+    /// fingerprint agrees as well (not only key + `same`). Systems set this for reset-like actions:
+    /// a hand-written lossy `PartialEq` (e.g. one that ignores a reset generation counter) would
+    /// otherwise merge the state after 256 resets with the initial one and hide what follows.
+    pub strict: bool,
     /// Fingerprint of what the real code returned (0 = returned nothing).
     pub obs: u64,
     pub violations: Vec<Violation>,
@@ -145,6 +150,7 @@ impl<S: System> Outcome<S> {
 }
 
 struct Cand<S: System> {
+    strict: bool,
     parent: u32,
     action: S::Action,
     state: S::State,
@@ -171,17 +177,19 @@ fn lookup<S: System>(
     nodes: &[Node<S>],
     key: &S::Key,
     st: &S::State,
+    strict: bool,
 ) -> bool {
     if let Some(sub) = big.get(key) {
         if let Some(f) = sys.fine_key(st) {
             return sub.get(&f).map_or(false, |ids| ids.iter().any(|&id| sys.same(&nodes[id as usize].state, st)));
         }
     }
+    let fine = if strict { sys.fine_key(st) } else { None };
     if let Some(&first) = map.get(key) {
         let mut id = first;
         while id != u32::MAX {
             let n = &nodes[id as usize];
-            if sys.same(&n.state, st) {
+            if sys.same(&n.state, st) && (fine.is_none() || sys.fine_key(&n.state) == fine) {
                 return true;
             }
             id = n.chain;
@@ -233,7 +241,7 @@ fn replay_mode<S: System>(sys: &S) -> Option<Outcome<S>> {
         trace.push(a.clone());
         let r = match crate::catch(|| sys.step(&cur, &a)) {
             Ok(r) => r,
-            Err(msg) => Step {
+            Err(msg) => Step { strict: false,
                 next: None,
                 obs: 0,
                 violations: vec![Violation::new("panics-on-valid-input", format!("{}/panics-on-valid-input/{}", sys.pid(), sys.class_name(sys.class_of(&a))), format!("the real code panicked during {:?}: {}", a, msg))],
@@ -341,7 +349,7 @@ pub fn explore<S: System>(sys: &S, limits: &Limits) -> Outcome<S> {
                                 Ok(r) => r,
                                 Err(msg) => {
                                     let rule = if msg.starts_with("harness") { "harness-panic" } else { "panics-on-valid-input" };
-                                    Step {
+                                    Step { strict: false,
                                         next: None,
                                         obs: 0,
                                         violations: vec![Violation::new(
@@ -374,16 +382,17 @@ pub fn explore<S: System>(sys: &S, limits: &Limits) -> Outcome<S> {
                                 }
                             };
                             let key = sys.key(&next);
-                            if lookup(sys, map_ref, big_ref, nodes_ref, &key, &next) {
+                            if lookup(sys, map_ref, big_ref, nodes_ref, &key, &next, r.strict) {
                                 continue;
                             }
-                            let fine = if big_ref.contains_key(&key) { sys.fine_key(&next).unwrap_or(0) } else { 0 };
+                            let fine = if big_ref.contains_key(&key) || r.strict { sys.fine_key(&next).unwrap_or(0) } else { 0 };
                             let e = local_seen.entry((key.clone(), fine)).or_default();
                             if e.iter().any(|&i| sys.same(&l.cands[i].state, &next)) {
                                 continue;
                             }
                             e.push(l.cands.len());
                             l.cands.push(Cand {
+                                strict: r.strict,
                                 parent: id as u32,
                                 action: act.clone(),
                                 state: next,
@@ -469,9 +478,10 @@ pub fn explore<S: System>(sys: &S, limits: &Limits) -> Outcome<S> {
                             let mut last = first;
                             let mut len = 0usize;
                             let mut dup = false;
+                            let cfine = if c.strict { sys.fine_key(&c.state) } else { None };
                             while id != u32::MAX {
                                 len += 1;
-                                if sys.same(&nodes[id as usize].state, &c.state) {
+                                if sys.same(&nodes[id as usize].state, &c.state) && (cfine.is_none() || sys.fine_key(&nodes[id as usize].state) == cfine) {
                                     dup = true;
                                     break;
                                 }
@@ -740,7 +750,7 @@ mod tests {
                     v.push(Violation::new("planted", "T/planted", "reached the planted state"));
                 }
             }
-            Step { next, obs: next.map_or(0, |x| 1 + x.0 as u64 * 1000 + x.1 as u64), violations: v }
+            Step { strict: false, next, obs: next.map_or(0, |x| 1 + x.0 as u64 * 1000 + x.1 as u64), violations: v }
         }
         fn key(&self, s: &(u32, u32)) -> (u32, u32) {
             *s
@@ -798,7 +808,7 @@ mod tests {
         }
         fn step(&self, s: &u32, a: &u8) -> Step<u32> {
             let next = if *a == 0 { (s + 1) % 1000 } else { (s * 7 + 3) % 1000 };
-            Step { next: Some(next), obs: 0, violations: vec![] }
+            Step { strict: false, next: Some(next), obs: 0, violations: vec![] }
         }
         fn key(&self, _s: &u32) -> u8 {
             0
